@@ -148,7 +148,12 @@ func (v *Verifier) getChains(ctx context.Context, q ChainQuery) ([][]*x509.Certi
 
 	cachedChains, ok := v.cacheGet(key, "chains")
 	if ok {
-		return cachedChains.([][]*x509.Certificate), nil
+		// The cache key does not contain the validity period of the query. Only
+		// serve cached chains that cover it; otherwise, ask the engine.
+		chains := coveringChains(cachedChains.([][]*x509.Certificate), q.Validity)
+		if len(chains) > 0 {
+			return chains, nil
+		}
 	}
 
 	chains, err := v.Engine.GetChains(ctx, q, Server(v.BoundServer))
@@ -159,6 +164,20 @@ func (v *Verifier) getChains(ctx context.Context, q ChainQuery) ([][]*x509.Certi
 		v.cacheAdd(key, chains, v.cacheExpiration(chains))
 	}
 	return chains, nil
+}
+
+func coveringChains(chains [][]*x509.Certificate, val cppki.Validity) [][]*x509.Certificate {
+	if val.IsZero() {
+		return chains
+	}
+	covering := make([][]*x509.Certificate, 0, len(chains))
+	for _, chain := range chains {
+		chainVal := cppki.Validity{NotBefore: chain[0].NotBefore, NotAfter: chain[0].NotAfter}
+		if chainVal.Covers(val) {
+			covering = append(covering, chain)
+		}
+	}
+	return covering
 }
 
 func (v *Verifier) cacheGet(key string, reqType string) (any, bool) {
